@@ -327,7 +327,7 @@ EPS = 2.220446049250313e-16
 LAST_SIZE_ERRORS = {}
 
 
-def size_replay(cand, R):
+def size_replay(cand, R, batches=False):
     """cand = (history key, bf, w, z, W) from the TLC dump.  The history with every sample repeated R times has the
     same unnormalised weights and evidence and normalised weights W/R (ReplicateInvariant).  Weights are row-wise
     quantities (tolerance 1e-12); logz and the normaliser are sums over the R*N samples accumulated sequentially by
@@ -339,10 +339,23 @@ def size_replay(cand, R):
     out = []
     LAST_SIZE_ERRORS.clear()
     ctx = {"size_case": {"hist": hk, "bf": bf, "w": [list(q) for q in w], "z": list(z), "W": [list(q) for q in W], "R": R,
-                         "entries": NR * T}}
+                         "entries": NR * T * (R if batches else 1), "batches": batches}}
     try:
         sm = StateManager(n_dim=1)
-        for it, (n, b, m, ks) in enumerate(hk, 1):     # u / x are not needed by the weights: keep the memory for logl
+        if batches:
+            # LONG histories: the whole sequence of iterations committed R times over (T * R iterations of the original batch
+            # sizes).  Every mixture component then occurs R times with 1/R of its share (SplitInvariant + ReplicateInvariant):
+            # the same unnormalised weights and evidence, normalised weights W / R
+            it = 0
+            for _ in range(R):
+                for (n, b, m, ks) in hk:
+                    it += 1
+                    sm.set_current("logl", np.array(ks, dtype=float) * LN2)
+                    sm.set_current("beta", b / 2.0)
+                    sm.set_current("logz", m * LN2)
+                    sm.set_current("iter", it)
+                    sm.commit_current_to_history()
+        for it, (n, b, m, ks) in enumerate(hk if not batches else (), 1):     # u / x are not needed by the weights: keep the memory for logl
             sm.set_current("logl", np.repeat(np.array(ks, dtype=float) * LN2, R))
             sm.set_current("beta", b / 2.0)
             sm.set_current("logz", m * LN2)
@@ -356,8 +369,9 @@ def size_replay(cand, R):
         if not (np.all(np.isfinite(lw_n)) and np.all(np.isfinite(lw_u)) and math.isfinite(lz_u) and math.isfinite(lz_n)):
             out.append(("size:nonfinite", "non-finite weights / evidence", ctx))
             return out
-        w_exp = np.repeat(np.array([a / b for a, b in w]), R)
-        W_exp = np.repeat(np.array([a / b for a, b in W]), R) / R
+        rep = np.tile if batches else np.repeat
+        w_exp = rep(np.array([a / b for a, b in w]), R)
+        W_exp = rep(np.array([a / b for a, b in W]), R) / R
         z_exp = z[0] / z[1]
         eu = float(np.max(np.abs(np.exp(lw_u) / w_exp - 1.0)))
         en = float(np.max(np.abs(np.exp(lw_n) / W_exp - 1.0)))
@@ -366,7 +380,8 @@ def size_replay(cand, R):
         ctx["errors"] = {"unnormalised": eu, "normalised": en, "evidence": ez, "sum": es}
         LAST_SIZE_ERRORS.clear()
         LAST_SIZE_ERRORS.update(ctx["errors"])
-        where = f"R={R}, {NR} samples x {T} iterations = {NR * T} entries"
+        where = (f"R={R}, {NR} samples x {T} iterations = {NR * T} entries" if not batches else
+                 f"the history repeated {R} times: {NR} samples x {T * R} iterations")
         if not eu <= REL:
             out.append(("size:unnormalised-weights", f"{where}: exp(logw) differs from the spec's rationals (rel err {eu:.3g})", ctx))
         if not en <= tol_sum:
@@ -669,7 +684,7 @@ def main():
             q = rp["size_case"]
             cand = (tuple((b[0], b[1], b[2], tuple(b[3])) for b in q["hist"]), q["bf"], tuple(tuple(x) for x in q["w"]),
                     tuple(q["z"]), tuple(tuple(x) for x in q["W"]))
-            for key, what, r in size_replay(cand, q["R"]):
+            for key, what, r in size_replay(cand, q["R"], batches=bool(q.get("batches"))):
                 ck.violation(key, what, r)
             ck.finish({"states": 1, "transitions": 1, "traces_validated_against_impl": 1, "evaluations": 2, "replayed_file": ck.args.replay})
         if "sequence" in rp:
@@ -866,6 +881,17 @@ def main():
             size["cases"].append({"hist": cand[0], "bf": cand[1], "R": R, "entries": R * nt, "rel_errors": dict(LAST_SIZE_ERRORS)})
             for key, what, rp in vio:
                 ck.violation(key, what, rp)
+    # long histories (many iterations): on both sides of 64 / 128 / 256 iterations and not a multiple of them
+    long_T = []
+    for cand, _ in size_plan(sizecands, "quick", np.random.RandomState(ck.seed + 29)):
+        T0 = len(cand[0])
+        for Ttarget in ([65, 100, 129] if ck.tier == "quick" else [63, 64, 65, 100, 127, 129, 200, 257, 300]):
+            R = -(-Ttarget // T0)
+            for key, what, rp in size_replay(cand, R, batches=True):
+                ck.violation(key.replace("size:", "long:"), what, rp)
+            size["evaluations"] += 2
+            long_T.append(T0 * R)
+    size["long_histories_iterations"] = sorted(set(long_T))
     size["wall_s"] = round(time.time() - t_size, 2)
     if not size["cases"] or max(c["entries"] for c in size["cases"]) <= 2 ** 23:
         raise RuntimeError(f"size family did not reach 2^23 entries: {size}")
